@@ -30,3 +30,12 @@ Corollary C06_determined_network_returns_truth (F : realFieldType) (m n : nat) (
   normal_eq A P 0 x -> x = 0.
 Proof. by move=> Ps Pp Pd Hdet Hx; apply: Hdet; have [] := @C06_consistent_data_zero_residuals _ _ _ _ _ _ Ps Pp Pd Hx. Qed.
 Print Assumptions C06_determined_network_returns_truth.
+
+(* approximate heights from a zenith angle: the line of sight joins instrument and target, so with Delta the height
+   difference along it (d cot z or s cos z) the marks differ by Delta + from_dh - to_dh -- the relation the repaired
+   ApproximateHeights / AcordZderived use (they had dropped the two heights) *)
+From mathcomp Require Import ring.
+Theorem C06_height_difference_of_the_marks (F : realFieldType) (z_from z_to from_dh to_dh delta : F) :
+  (z_to + to_dh) - (z_from + from_dh) = delta -> z_to - z_from = delta + from_dh - to_dh.
+Proof. by move=> <-; ring. Qed.
+Print Assumptions C06_height_difference_of_the_marks.
